@@ -637,3 +637,22 @@ class KnownDeviation:
         else:
             r.detail = f"violation beyond known finding {self.finding}: deviant reference {r2.verdict}: {r2.detail[:200]} | primary: {r.detail[:200]}"
         return r
+
+
+def with_distinct_draw_keys(kinds=("normal",), at_least=2, tol=0.0):
+    """custom hook: the usual leafwise equality plus 'the draws of the given kinds use pairwise distinct PRNG keys'
+    (independence under the PRNG contract), decided on the Key datatype."""
+
+    def custom(interp, sym_args, outs, out_shape):
+        diffs, err = build_diffs(Ob("x", None, (), tol=tol), interp, out_shape, outs)
+        assert err is None, err
+        ds = [d for d in interp.draws if d.kind in kinds]
+        assert len(ds) >= at_least, [d.kind for d in interp.draws]
+        for i in range(len(ds)):
+            for j in range(i + 1, len(ds)):
+                pcs = [J.zbool(x) for x in ds[i].pc + ds[j].pc]
+                diffs.append((f"draws {i} and {j} ({ds[i].kind}) share a PRNG key", z3.And(ds[i].key == ds[j].key, *pcs)))
+        return diffs
+
+    return custom
+
